@@ -5,11 +5,14 @@
 
    Proved here, for ALL programs and ALL schedules (any number of goroutines,
    keys and calls; the granularity is the atomic steps of the underlying map):
-   (a) everything the property says about the step on the key's mutex (Try*
-       never block and report exactly whether the mutex was free; Lock is
-       enabled exactly when the mutex is free; a mutex step reads and writes only
-       the mutex of its own key, so holding or waiting for another key's mutex
-       can neither delay nor fail it);
+   (a) facts of the abstract mutex machine (one atomic step per mutex operation,
+       no queue of waiters): the Try* STEP is always enabled and reports whether
+       the machine's mutex was free; Lock's step is enabled exactly when the
+       machine's mutex is free; a mutex step reads and writes only the mutex of
+       its own key, so holding or waiting for another key's mutex can neither
+       delay nor fail it. What these mean for the real sync.Mutex / sync.RWMutex
+       is said by (c)-(e): "fails / waits while held" unconditionally, "succeeds"
+       only for a free AND UNCONTENDED key;
    (b) [C09_one_mutex_per_key]: in runs without ClearKey (programs of
        LoadOrStore-based keyed-mutex calls and Loads on one Map) every
        LoadOrStore of a key returns the same mutex, under every interleaving,
@@ -27,12 +30,18 @@
        Unlock/RUnlock step of a call on key k, that thread holds k; the harness
        generates only such programs, TryLock results included);
    (d) the same at the level of KEYS: TryLockKey/TryRLockKey fail while the key
-       is held incompatibly and succeed (and then hold it) when it is free;
-       LockKey's mutex step is disabled while the key is held and enabled as
-       soon as it is free, whatever other keys are held or awaited; disciplined
-       runs never panic. The "succeeds when free" halves assume fresh mutexes
-       ([fresh_values]: calls on different keys carry different values, as in
-       the code, where every call allocates a new mutex).
+       is held incompatibly, and succeed (and then hold it) when the key is free
+       AND UNCONTENDED; LockKey's/RLockKey's mutex step is disabled while the key
+       is held incompatibly and enabled as soon as the key is free and
+       uncontended, whatever OTHER keys are held or awaited; the Try* step can
+       always be taken; disciplined runs never panic. "Uncontended" is the
+       explicit hypothesis [quiet c t k] (SyncMap/Uncontended.v): no other thread
+       stands at ANY mutex-operation step of a call on k. It is needed for Go:
+       sync.RWMutex refuses readers while a writer waits, sync.Mutex.TryLock may
+       fail with queued waiters, and RWMutex.TryLock/Unlock are not atomic. The
+       "succeeds" halves also assume fresh mutexes ([fresh_values]: calls on
+       different keys carry different values, as in the code, where every call
+       allocates a new mutex).
    ClearKey (Delete on the map): Props/C09ck.v proves per-key mutual exclusion for
    runs WITH ClearKey, under the property's own proviso (ClearKey(k) only while
    nobody holds or awaits k). The theorems of THIS file are about programs
@@ -41,11 +50,13 @@
    (e) cross-key PROGRESS as a bound (SyncMap/Progress.v): a thread that cannot
        take a step is waiting for the Map's internal mutex m.mu held by ANOTHER
        thread, or stands at the blocking Lock/RLock step of key k while k itself
-       is held incompatibly; the holder of m.mu can always take a step and
+       is held incompatibly or contended; the holder of m.mu can always take a step and
        releases m.mu within 3 * (keys of the read map) + 6 of its own steps,
        whatever the others do. Holding or awaiting other keys appears nowhere. *)
 From Typ Require Import SyncMap.Model SyncMap.Inv SyncMap.KeyedMutex SyncMap.InsertOnly SyncMap.Progress SyncMap.Uncontended.
 
+(* ---- facts of the queue-less, one-step-per-operation mutex machine [step_post] of the model (for what
+   they mean for the real sync mutexes see the key-level theorems below) ---- *)
 Theorem C09_try_never_blocks : forall um f, is_try (f_pc f) = true -> step_post um f <> None.
 Proof. exact try_never_blocks. Qed.
 Print Assumptions C09_try_never_blocks.
@@ -158,6 +169,17 @@ Theorem C09_mutex_is_a_supplied_value : forall progs sched k m, io_progs progs -
 Proof. exact observed_value_is_supplied. Qed.
 Print Assumptions C09_mutex_is_a_supplied_value.
 
+(* instance: in the race of C09_example_per_key below, thread 1 - whose own call supplied the mutex 2001 -
+   stands at its Lock step with the mutex 1001 that thread 0's call supplied for key 7 *)
+Example C09_example_supplied_value :
+  let c := run_schedule (init_config 1 ex_progs) (ex_alt 10) in
+  observed c 7 1001 /\ In (CLoadOrStore 0 7 1001 PLock) (concat ex_progs).
+Proof.
+  split; [|cbn; auto]. left. exists 1%nat.
+  destruct (top_frame (run_schedule (init_config 1 ex_progs) (ex_alt 10)) 1) as [f|] eqn:E; [|vm_compute in E; discriminate].
+  exists f. split; [reflexivity|]. vm_compute in E. injection E as <-. repeat split.
+Qed.
+
 (* [holds_excl c t k] / [holds_shared c t k]: computed from the history c_hist (see [holders]).
    [disc_from c0 sched]: whenever the schedule picks a thread that stands at the Unlock (RUnlock) step
    of a call on key k, that thread holds k exclusively (shared). *)
@@ -222,18 +244,20 @@ Print Assumptions C09_tryrlock_fails_while_write_held.
 (* "Succeed when the key is FREE AND UNCONTENDED".
    [fresh_values progs]: calls on different keys carry different mutexes (in the code every call allocates a
    new one), so distinct keys have distinct mutexes.
-   [uncontended c t k]: no thread other than t stands at the blocking Lock / RLock step (KM_Lock, KRW_Lock,
-   KRW_RLock) of a call on k, i.e. nobody can be queued inside k's mutex. This hypothesis is needed for Go:
-   sync.RWMutex refuses new readers (TryRLock false, RLock blocks) while a writer WAITS, and
-   sync.Mutex.TryLock may fail on a free mutex with queued waiters (starvation mode); the trusted mutex
-   machine of the model has no queue, so in the MODEL these theorems hold without it (the [_machine] lemmas
-   of SyncMap/InsertOnly.v, not property theorems). *)
+   [quiet c t k]: no thread other than t stands at ANY mutex-operation step (Lock, TryLock, Unlock, RLock,
+   TryRLock, RUnlock) of a call on k, i.e. nobody else is operating on, or queued at, k's mutex. This
+   hypothesis is needed for Go: sync.RWMutex refuses new readers (TryRLock false, RLock blocks) while a
+   writer WAITS, sync.Mutex.TryLock may fail on a free mutex with queued waiters (starvation mode), and
+   sync.RWMutex.TryLock / Unlock are several atomic operations, so a TryLock overlapping another goroutine's
+   failing TryLock or the tail of its Unlock may fail on a free mutex. The trusted mutex machine of the model
+   takes each operation as one step and has no queue, so in the MODEL these theorems hold without the
+   hypothesis (the [_machine] lemmas of SyncMap/InsertOnly.v, not property theorems). *)
 Theorem C09_trylock_succeeds_when_key_free : forall progs sched,
   io_progs progs -> disc_from (init_config 1 progs) sched -> fresh_values progs ->
   let c := run_schedule (init_config 1 progs) sched in
   forall t ch c' f,
   top_frame c t = Some f -> (f_pc f = KM_TryLock \/ f_pc f = KRW_TryLock) ->
-  (forall t2 b, (t2, key_of (f_call f), b) ∉ holders c) -> uncontended c t (key_of (f_call f)) ->
+  (forall t2 b, (t2, key_of (f_call f), b) ∉ holders c) -> quiet c t (key_of (f_call f)) ->
   step c t ch = Some c' ->
   completed (c_hist c') = completed (c_hist c) ++ [(t, f_call f, RBool true)] /\ holds_excl c' t (key_of (f_call f)).
 Proof. exact trylock_succeeds_when_key_free. Qed.
@@ -244,7 +268,7 @@ Theorem C09_tryrlock_succeeds_when_key_not_write_held : forall progs sched,
   let c := run_schedule (init_config 1 progs) sched in
   forall t ch c' f,
   top_frame c t = Some f -> f_pc f = KRW_TryRLock ->
-  (forall t2, ~ holds_excl c t2 (key_of (f_call f))) -> uncontended c t (key_of (f_call f)) ->
+  (forall t2, ~ holds_excl c t2 (key_of (f_call f))) -> quiet c t (key_of (f_call f)) ->
   step c t ch = Some c' ->
   completed (c_hist c') = completed (c_hist c) ++ [(t, f_call f, RBool true)] /\ holds_shared c' t (key_of (f_call f)).
 Proof. exact tryrlock_succeeds_when_key_not_write_held. Qed.
@@ -277,7 +301,7 @@ Theorem C09_lock_succeeds_when_key_free : forall progs sched,
   let c := run_schedule (init_config 1 progs) sched in
   forall t ch f,
   top_frame c t = Some f -> (f_pc f = KM_Lock \/ f_pc f = KRW_Lock) ->
-  (forall t2 b, (t2, key_of (f_call f), b) ∉ holders c) -> uncontended c t (key_of (f_call f)) ->
+  (forall t2 b, (t2, key_of (f_call f), b) ∉ holders c) -> quiet c t (key_of (f_call f)) ->
   exists c', step c t ch = Some c' /\ completed (c_hist c') = completed (c_hist c) ++ [(t, f_call f, RUnit)] /\
              holds_excl c' t (key_of (f_call f)).
 Proof. exact lock_succeeds_when_key_free. Qed.
@@ -298,15 +322,15 @@ Theorem C09_rlock_succeeds_when_key_not_write_held : forall progs sched,
   let c := run_schedule (init_config 1 progs) sched in
   forall t ch f,
   top_frame c t = Some f -> f_pc f = KRW_RLock ->
-  (forall t2, ~ holds_excl c t2 (key_of (f_call f))) -> uncontended c t (key_of (f_call f)) ->
+  (forall t2, ~ holds_excl c t2 (key_of (f_call f))) -> quiet c t (key_of (f_call f)) ->
   exists c', step c t ch = Some c' /\ completed (c_hist c') = completed (c_hist c) ++ [(t, f_call f, RUnit)] /\
              holds_shared c' t (key_of (f_call f)).
 Proof. exact rlock_succeeds_when_key_not_write_held. Qed.
 Print Assumptions C09_rlock_succeeds_when_key_not_write_held.
 
-(* Non-vacuity of [uncontended]: TryLockKey(7) against LockKey(7); UnlockKey(7). In A thread 1 is through
+(* Non-vacuity of [quiet]: TryLockKey(7) against LockKey(7); UnlockKey(7). In A thread 1 is through
    and thread 0 stands at its TryLock step with key 7 free and uncontended: the step returns true and
-   thread 0 holds 7. In B both stand at their mutex step: key 7 is free but CONTENDED for thread 0 (thread 1
+   thread 0 holds 7. In B both stand at their mutex step: key 7 is free but not quiet for thread 0 (thread 1
    stands at KM_Lock), the theorem does not apply - here Go's TryLock is allowed to fail. *)
 Example C09_example_uncontended :
   disc_fromb (init_config 1 un_ex_progs) (un_ex_schedA ++ [(0%nat, 0%Z)]) = true /\
@@ -315,6 +339,39 @@ Example C09_example_uncontended :
    option_map (fun c' => (holders c', list.last (completed (c_hist c')))) (step c 0 0) =
      Some ([(0%nat, 7%Z, true)], Some (0%nat, CLoadOrStore 0 7 1001 PTryLock, RBool true))) /\
   un_ex_obs (run_schedule (init_config 1 un_ex_progs) un_ex_schedB) = ([Some KM_TryLock; Some KM_Lock], [], false).
+Proof. vm_compute. repeat split. Qed.
+
+(* C09_try_step_enabled, instances: in A and in B thread 0's TryLock step can be taken (in B although thread 1
+   stands at the Lock step of the same key). *)
+Example C09_example_try_step_enabled :
+  is_Some (step (run_schedule (init_config 1 un_ex_progs) un_ex_schedA) 0 0) /\
+  is_Some (step (run_schedule (init_config 1 un_ex_progs) un_ex_schedB) 0 0).
+Proof. split; vm_compute; eauto. Qed.
+
+(* RW instances ([rw_ex_progs]: thread 0 RLockKey(7), thread 1 TryRLockKey(7), thread 2 LockKey(7), thread 3
+   RLockKey(7)); thread 0 holds key 7 shared throughout.
+   Q1: thread 1 stands at its TryRLock step, nobody else at a mutex step of key 7 (quiet), no writer holds 7:
+       the step returns true and thread 1 holds 7 shared (C09_tryrlock_succeeds_when_key_not_write_held).
+   Q3: the same for thread 3's blocking RLock step (C09_rlock_succeeds_when_key_not_write_held).
+   W:  the writer (thread 2) stands at KRW_Lock - it has to wait for the reader - and thread 1 at its TryRLock
+       step: key 7 is NOT quiet for thread 1. The queue-less machine still answers true; Go's RWMutex would
+       answer false once the writer is queued. This is why the hypothesis is there. *)
+Example C09_example_rw_quiet :
+  disc_fromb (init_config 1 rw_ex_progs) (concat (map (fun tn : nat * nat => repeat (tn.1, 0%Z) tn.2) [(0, 7); (1, 6); (2, 2); (1, 1)]%nat)) = true /\
+  (let c := rw_ex_run [(0, 7); (1, 6)]%nat in
+   rw_ex_obs c = ([None; Some KRW_TryRLock; Some LOS_read1; Some LOS_read1], [(0%nat, 7%Z, false)], [(1001%Z, UReaders 1)]) /\
+   quietb c 1 7 = true /\
+   option_map (fun c' => (holders c', list.last (completed (c_hist c')))) (step c 1 0) =
+     Some ([(0%nat, 7%Z, false); (1%nat, 7%Z, false)], Some (1%nat, CLoadOrStore 0 7 2001 PTryRLock, RBool true))) /\
+  (let c := rw_ex_run [(0, 7); (3, 6)]%nat in
+   rw_ex_obs c = ([None; Some LOS_read1; Some LOS_read1; Some KRW_RLock], [(0%nat, 7%Z, false)], [(1001%Z, UReaders 1)]) /\
+   quietb c 3 7 = true /\
+   option_map holders (step c 3 0) = Some [(0%nat, 7%Z, false); (3%nat, 7%Z, false)]) /\
+  (let c := rw_ex_run [(0, 7); (1, 6); (2, 2)]%nat in
+   rw_ex_obs c = ([None; Some KRW_TryRLock; Some KRW_Lock; Some LOS_read1], [(0%nat, 7%Z, false)], [(1001%Z, UReaders 1)]) /\
+   quietb c 1 7 = false /\ step c 2 0 = None /\
+   option_map (fun c' => list.last (completed (c_hist c'))) (step c 1 0) =
+     Some (Some (1%nat, CLoadOrStore 0 7 2001 PTryRLock, RBool true))).
 Proof. vm_compute. repeat split. Qed.
 
 (* ================= cross-key progress ================= *)
@@ -363,8 +420,8 @@ Theorem C09_blocked_only_by_mu_or_own_key : forall progs sched,
   c_insts c = [i] -> top_frame c t = Some f -> (forall ch, step c t ch = None) ->
   (is_lock_label (f_pc f) = true /\ exists t', t' <> t /\ i_mu i = Some t') \/
   ((f_pc f = KM_Lock \/ f_pc f = KRW_Lock) /\
-     ((exists t2 b, (t2, key_of (f_call f), b) ∈ holders c) \/ ~ uncontended c t (key_of (f_call f)))) \/
-  (f_pc f = KRW_RLock /\ ((exists t2, holds_excl c t2 (key_of (f_call f))) \/ ~ uncontended c t (key_of (f_call f)))).
+     ((exists t2 b, (t2, key_of (f_call f), b) ∈ holders c) \/ ~ quiet c t (key_of (f_call f)))) \/
+  (f_pc f = KRW_RLock /\ ((exists t2, holds_excl c t2 (key_of (f_call f))) \/ ~ quiet c t (key_of (f_call f)))).
 Proof. exact blocked_only_by_mu_or_own_key. Qed.
 Print Assumptions C09_blocked_only_by_mu_or_own_key.
 
